@@ -82,11 +82,8 @@ func c08Decorate(r *core.Rand, d *gen.Out) (string, bool) {
 			if d.Lines[i].Kind == gen.LEntryCont {
 				ind = d.Layouts[d.Lines[i].Rec].Indent + d.Layouts[d.Lines[i].Rec].Indent
 			}
-			end := l.Ending
-			if end == "" {
-				end = "\n"
-			}
-			sb.WriteString(ind + "\r" + end)
+			// the line's text is the CR; its ending must be CRLF (a CR followed by a bare LF would itself read as a CRLF ending)
+			sb.WriteString(ind + "\r" + "\r\n")
 			changed = true
 		}
 		sb.WriteString(l.Text)
@@ -169,6 +166,11 @@ func c08Check(e *core.Env, r *core.Rand, text string, decorated bool, idx int64)
 			continue
 		}
 		if nerr > 0 {
+			if rec := ref.Recognise(text); rec.Verdict == ref.Conforming {
+				// the quantifier is "every valid text": a valid text that yields errors yields no blocks at all
+				e.Violation("valid-text-yields-no-blocks", fmt.Sprintf("%s: the text is valid but the parser returns %d errors and therefore no blocks to reproduce it from", en.name, nerr), w)
+				return
+			}
 			e.Count("not_accepted_skipped", 1)
 			return
 		}
